@@ -1082,10 +1082,19 @@ def comprehension(ex, e, kind):
         if kind != 'set' and not isinstance(e, ast.SetComp):
             raise Unsupported('list comprehension over a set (order)')
         raise Unsupported('comprehension over a set')
-    seq = seq_term(ex, it, e)
+    dview = None
+    if isinstance(it, SFunc) and it.kind == 'dictview':
+        if it.d.keys is None:
+            raise Unsupported('comprehension over an unordered dict')
+        dview = it
+        seq = it.d.keys
+        if it.view == 'keys':
+            dview = None
+    else:
+        seq = seq_term(ex, it, e)
     elt = e.elt
     # identity map  [C(*t) for t in xs] / [t for t in xs]  is xs itself
-    if not gen.ifs and isinstance(gen.target, ast.Name):
+    if not gen.ifs and isinstance(gen.target, ast.Name) and dview is None:
         inner = elt
         if isinstance(inner, ast.Call) and isinstance(inner.func, ast.Name) and inner.func.id in ('Instance', 'Edge', 'Attribute', 'Triple') \
                 and len(inner.args) == 1 and isinstance(inner.args[0], ast.Starred):
@@ -1098,6 +1107,7 @@ def comprehension(ex, e, kind):
     pconsts = []
     flat = []
     sub = Exec(ex.eng, ex.module, None, spec_mode=True)
+    sub.no_assume = True
     sub.fname = ex.fname
     # captured values are constants of the current path; the definition may mention them
     sub.env = dict(ex.env)
@@ -1105,7 +1115,12 @@ def comprehension(ex, e, kind):
     sub.old_env = getattr(ex, 'old_env', {})
     n = z3.Length(q)
     last = q[n - 1]
-    sub.bind_target(gen.target, V(last), e)
+    if dview is None:
+        sub.bind_target(gen.target, V(last), e)
+    elif dview.view == 'values':
+        sub.bind_target(gen.target, sub.dict_value(dview.d, last), e)
+    else:
+        sub.bind_target(gen.target, V(vl.vtuple([last, as_val(sub.dict_value(dview.d, last))])), e)
     cond = z3.And(*[as_bool(sub.ev(c)) for c in gen.ifs]) if gen.ifs else z3.BoolVal(True)
     el = as_val(sub.ev(elt))
     init = f(z3.SubSeq(q, 0, n - 1), *pconsts)
